@@ -696,6 +696,7 @@ class SMCSamples(BaseSamples):
             parameters=self.parameters,
             log_evidence=self.log_evidence,
             log_evidence_error=self.log_evidence_error,
+            dtype=self.dtype,
         )
 
     def to_numpy(self):
